@@ -45,6 +45,13 @@ def _derived_names(f, opt):
                 if used & derived and n.target.id not in derived:
                     derived.add(n.target.id)
                     changed = True
+            elif isinstance(n, (ast.For, ast.comprehension)):
+                used = {x.id for x in ast.walk(n.iter) if isinstance(x, ast.Name)}
+                if used & derived:
+                    for nm in [e for e in ast.walk(n.target) if isinstance(e, ast.Name)]:
+                        if nm.id not in derived:
+                            derived.add(nm.id)
+                            changed = True
     return derived
 
 
@@ -187,6 +194,8 @@ def rule_option_delivery(ctx, opts=("max_bond", "cutoff"), modules=None, rule="c
                         # stage-specific sibling option (cutoff_oversample, cutoff_fit ...):
                         # allowed when another call of this function delivers the plain option
                         staged.append((construct, c, val, where, cname))
+                    elif exempt.get((f.qualname, cname)) or exempt.get((f.name, cname)):
+                        r.exempt(construct, exempt.get((f.qualname, cname)) or exempt.get((f.name, cname)))
                     else:
                         r.bad(Finding(rule, f.qualname,
                                       f"call {callee}(...) (line {c.lineno}) receives {opt}={src_of(val)[:40]}, which is not derived from the caller's own `{opt}`",
@@ -202,6 +211,13 @@ def rule_option_delivery(ctx, opts=("max_bond", "cutoff"), modules=None, rule="c
                 if ex:
                     r.exempt(construct, ex)
                     continue
+                if opt not in ("max_bond", "cutoff"):
+                    # a mode flag may be *absorbed*: the caller transforms its arguments according to the flag
+                    # (G -> conj(G), transpose = dagger or transpose) and hands the transformed values on
+                    transformed = [a for a in list(c.args) + [k.value for k in c.keywords] if {x.id for x in ast.walk(a) if isinstance(x, ast.Name)} & (derived - {opt})]
+                    if transformed:
+                        r.ok(construct, sample={"caller": f.qualname, "callee": callee, "option": opt, "absorbed into": src_of(transformed[0])[:30]})
+                        continue
                 # an opaque **kwargs of the caller may carry it: only when the caller itself does not consume the option
                 r.bad(Finding(
                     rule, f.qualname,
